@@ -288,6 +288,7 @@ func checkSpendPasses(c *Ctx, rule string, leaseOnly bool) {
 func runC01(c *Ctx) {
 	p := c.P
 	checkSpendPasses(c, "C01-R1", false)
+	checkSeekHeightNonNegative(c, "C01-R1")
 
 	// fetchCredits flag bindings
 	fc := p.Func("wtxmgr", "Store", "fetchCredits")
